@@ -227,7 +227,10 @@ def setup():
     # gen_seq opens its output with builtins.open: phase changes when the output path is opened for writing
     def audit(event, args):
         if event == "open" and STATE.get("outpath") and args and str(args[0]) == STATE["outpath"] and args[1] and "w" in str(args[1]):
-            STATE["phase"] = "flushing"
+            # gen_seq: writing starts when the output is opened *after* the last graph-building stage (labels) returned;
+            # an earlier open does not end the 'before writing' phase
+            if STATE["counts"].get(("stage-exit", "labels")):
+                STATE["phase"] = "flushing"
     sys.addaudithook(audit)
 
 
